@@ -39,7 +39,11 @@ impl<A> OwnView for PayloadStreamObj<A> { open spec fn own(&self) -> Own { own_n
 pub uninterp spec fn queue_cap(q: int) -> Option<usize>;
 // the loop future as an object: LoopInfo is the ghost summary of what it captured (strategy type, config, queue, notifier slot, actor value)
 #[verifier::external_body] #[verifier::accept_recursive_types(A)] pub struct LoopFuture<A> { p: core::marker::PhantomData<A> }
-impl<A> LoopFuture<A> { pub uninterp spec fn info(&self) -> LoopInfo; pub uninterp spec fn captured(&self) -> Own; }
+impl<A> LoopFuture<A> { pub uninterp spec fn info(&self) -> LoopInfo; pub uninterp spec fn captured(&self) -> Own; pub uninterp spec fn code(&self) -> int; }
 pub trait IntoLoopFuture<A> { fn into_loop(self, Ghost(info): Ghost<LoopInfo>) -> (r: LoopFuture<A>); }
 pub broadcast axiom fn own_of_actor<A: Actor>(a: &A) ensures #[trigger] own_of(a) == own_none();      // client contract: the actor value does not store a strong handle to itself
 pub broadcast axiom fn own_of_stream<S: VStream>(s: &S) ensures #[trigger] own_of(s) == own_none();
+// names the contracts of unit chan mention (their definitions live there)
+pub uninterp spec fn fresh_queue(q: int) -> bool;
+pub uninterp spec fn Channel__bounded__closure0__code() -> int; pub uninterp spec fn Channel__bounded__closure1__code() -> int;
+pub uninterp spec fn Channel__unbounded__closure0__code() -> int; pub uninterp spec fn Channel__unbounded__closure1__code() -> int;
